@@ -7,7 +7,7 @@ import z3
 
 from . import dsl
 from .core import Ctx, PyExc, Unsupported, PathPruned
-from .values import (BoolV, IntV, RealV, StrV, NoneV, NONE, TupleV, ListV, SeqV, SetV, DictV, ObjV,
+from .values import (RefV, BoolV, IntV, RealV, StrV, NoneV, NONE, TupleV, ListV, SeqV, SetV, DictV, ObjV,
                      ClassV, FuncV, BoundV, BuiltinV, RangeV, V, StrSort, ElemType)
 
 
@@ -96,9 +96,34 @@ class Ops:
                 self.ctx.datatypes[key] = ElemType(sort, "rec", rec=desc, accessors=accessors,
                                                    constructor=sort.mk)
             return self.ctx.datatypes[key]
+        if isinstance(desc, dsl.Ref):
+            key = f"ref:{desc.cls}"
+            if key not in self.ctx.datatypes:
+                self.ctx.datatypes[key] = ElemType(z3.DeclareSort(f"Ref_{desc.cls}"), "ref", rec=desc)
+            et = self.ctx.datatypes[key]
+            if et.rec is not desc:
+                et = ElemType(et.sort, "ref", rec=desc)
+            return et
+        if isinstance(desc, dsl.Opt):
+            inner = self.elem_type(desc.inner)
+            return ElemType(inner.sort, "opt", rec=desc, accessors={"inner": inner})
+        if isinstance(desc, dsl.DictOf):
+            key = f"dict:{desc.key!r}:{desc.value!r}"
+            if key not in self.ctx.datatypes:
+                self.ctx.datatypes[key] = ElemType(z3.DeclareSort(f"DictRef_{len(self.ctx.datatypes)}"), "dict", rec=desc)
+            return self.ctx.datatypes[key]
         raise Unsupported(f"no element encoding for {desc!r}")
 
     def unpack(self, term: Any, et: ElemType) -> V:
+        if et.kind == "ref":
+            return RefV(term, et.rec)
+        if et.kind == "dict":
+            return self.ref_field(term, f"dict<{et.rec.key!r},{et.rec.value!r}>", et.rec)
+        if et.kind == "opt":
+            flag = z3.Function(f"isnone:{et.sort}", et.sort, z3.BoolSort())
+            if self.ctx.branch(flag(term)):
+                return NONE
+            return self.unpack(term, et.accessors["inner"])
         if et.kind == "rec":
             fields = {}
             for fname, ftype in et.rec.fields.items():
@@ -109,6 +134,17 @@ class Ops:
         return mk(term)
 
     def pack(self, value: V, et: ElemType) -> Any:
+        if et.kind == "ref":
+            if not isinstance(value, RefV):
+                if getattr(et.rec, "abstract", False):
+                    # content abstracted away: an arbitrary object of that class
+                    return z3.Const(self.ctx.fresh_name(f"abs_{et.rec.cls}"), et.sort)
+                raise Unsupported(f"expected opaque object, got {value!r}")
+            return value.t
+        if et.kind == "opt":
+            if isinstance(value, NoneV):
+                raise Unsupported("storing None into an optional-element container")
+            return self.pack(value, et.accessors["inner"])
         if et.kind == "int":
             return as_int_term(value)
         if et.kind == "bool":
@@ -160,6 +196,19 @@ class Ops:
             fields = {fname: self.fresh(ftype, f"{name}.{fname}", is_input)
                       for fname, ftype in desc.fields.items()}
             return ObjV(desc.cls, fields)
+        if isinstance(desc, dsl.Ref):
+            et = self.elem_type(desc)
+            return RefV(sym(et.sort, name), desc)
+        if isinstance(desc, dsl.DictOf):
+            kt, vt = self.elem_type(desc.key), self.elem_type(desc.value)
+            keys = SeqV(sym(z3.ArraySort(z3.IntSort(), kt.sort), f"{name}.keys[]"), sym(z3.IntSort(), f"len({name})"), kt)
+            ctx.assume(keys.n >= 0)
+            if getattr(desc, 'distinct', False):
+                i, j = z3.Int(ctx.fresh_name("q")), z3.Int(ctx.fresh_name("q"))
+                ctx.assume(z3.ForAll([i, j], z3.Implies(z3.And(0 <= i, i < j, j < keys.n),
+                                                        z3.Select(keys.arr, i) != z3.Select(keys.arr, j))))
+            vals = sym(z3.ArraySort(kt.sort, vt.sort), f"{name}.vals")
+            return DictV(keys=keys, vals=vals, vt=vt)
         if isinstance(desc, dsl.SeqOf):
             et = self.elem_type(desc.elem)
             arr = sym(z3.ArraySort(z3.IntSort(), et.sort), f"{name}[]")
@@ -234,6 +283,10 @@ class Ops:
             return True
         if isinstance(v, (ClassV, FuncV, BoundV, BuiltinV)):
             return True
+        if isinstance(v, RefV):
+            if "__bool__" in getattr(v.desc, "maybe", []):
+                return z3.Function(f"{v.desc.cls}.__bool__", v.t.sort(), z3.BoolSort())(v.t)
+            return True
         raise Unsupported(f"truth of {v!r}")
 
     def range_len(self, r: RangeV) -> Any:
@@ -251,8 +304,10 @@ class Ops:
                 return a.t == b.t
             ta, tb = as_num_term(a), as_num_term(b)
             return ta == tb
+        if isinstance(a, RefV) and isinstance(b, RefV):
+            return a.t == b.t if a.t.sort() == b.t.sort() else False
         if isinstance(a, NoneV) or isinstance(b, NoneV):
-            if isinstance(a, ObjV) or isinstance(b, ObjV):
+            if isinstance(a, (ObjV, RefV)) or isinstance(b, (ObjV, RefV)):
                 return False
             return isinstance(a, NoneV) and isinstance(b, NoneV)
         if isinstance(a, StrV) and isinstance(b, StrV):
